@@ -6,6 +6,7 @@ use std::panic;
 mod util;
 mod c_time;
 mod c_amf0;
+mod c_chunk;
 
 fn run_case(line: &str) -> String {
     let mut it = line.splitn(2, ' ');
@@ -14,6 +15,7 @@ fn run_case(line: &str) -> String {
     match comp {
         "time" => c_time::run(rest),
         "amf0" => c_amf0::run(rest),
+        "chunk" => c_chunk::run(rest),
         _ => format!("HARNESS-UNKNOWN-COMPONENT {}", comp),
     }
 }
